@@ -50,23 +50,17 @@ def aHolds : APh → Bool | .inCrit .. => true | _ => false
 def rDone : RPh → Bool | .early | .finished => true | _ => false
 def aDone : APh → Bool | .finished => true | _ => false
 
-/-- run one more granule of a section entered in `t` with `j` granules done -/
-def advance (c : Crit) (j : Nat) (t : St) : Option Nat × St :=
-  if j + 1 ≥ c.len t then (none, c.full t) else (some (j + 1), c.mid t (j + 1))
-
 /-- the receive thread runs to its next yield point (no-op when done or blocked on the mutex) -/
 def pickR (R : Crit) (y : Sys) : Sys :=
   match y.r with
   | .start => if y.st.rtpLatched then { y with r := .early } else { y with r := .waiting }
   | .waiting =>
-    if aHolds y.a then y else
-      match advance R 0 y.st with
-      | (none, s') => { y with st := s', r := .finished }
-      | (some j, s') => { y with st := s', r := .inCrit j y.st }
+    if aHolds y.a then y
+    else if 1 ≥ R.len y.st then { y with st := R.full y.st, r := .finished }
+    else { y with st := R.mid y.st 1, r := .inCrit 1 y.st }
   | .inCrit j t =>
-    match advance R j t with
-    | (none, s') => { y with st := s', r := .finished }
-    | (some j', s') => { y with st := s', r := .inCrit j' t }
+    if j + 1 ≥ R.len t then { y with st := R.full t, r := .finished }
+    else { y with st := R.mid t (j + 1), r := .inCrit (j + 1) t }
   | _ => y
 
 /-- the API thread runs to its next yield point -/
@@ -74,14 +68,12 @@ def pickA (A : Crit) (y : Sys) : Sys :=
   match y.a with
   | .start => { y with a := .waiting }
   | .waiting =>
-    if rHolds y.r then y else
-      match advance A 0 y.st with
-      | (none, s') => { y with st := s', a := .finished }
-      | (some j, s') => { y with st := s', a := .inCrit j y.st }
+    if rHolds y.r then y
+    else if 1 ≥ A.len y.st then { y with st := A.full y.st, a := .finished }
+    else { y with st := A.mid y.st 1, a := .inCrit 1 y.st }
   | .inCrit j t =>
-    match advance A j t with
-    | (none, s') => { y with st := s', a := .finished }
-    | (some j', s') => { y with st := s', a := .inCrit j' t }
+    if j + 1 ≥ A.len t then { y with st := A.full t, a := .finished }
+    else { y with st := A.mid t (j + 1), a := .inCrit (j + 1) t }
   | .finished => y
 
 /-- a schedule: `true` = the receive thread is picked -/
